@@ -25,7 +25,8 @@ def main():
     tags = sys.argv[3].split(",") if len(sys.argv) > 3 else ["none"]
     switches = sys.argv[4].split(",") if len(sys.argv) > 4 and sys.argv[4] else []
     rng = random.Random(seed)
-    g = S.Gen(rng, keys=("a", "b"), atoms=(1, 2, 0, None), tags=tags, max_depth=3, max_width=2, p_tag=0.35)
+    g = S.Gen(rng, keys=("a", "b"), atoms=(1, 2, 0, None), tags=tags, max_depth=3, max_width=2, p_tag=0.35, p_call=float(os.environ.get("PCALL","0")),
+              leaf_extra=[S.SD("clear", None, form="tag"), S.with_tag(S.leaf(None), "del")] if os.environ.get("EXTRA") else ())
     wd = tlc.workdir("dbg")
     path = os.path.join(wd, "traces.ndjson")
     hist = {}
@@ -35,7 +36,7 @@ def main():
             hist[tid] = docs
             f.write(json.dumps(drive.history_trace(tid, docs)) + "\n")
     cfg = tlc.cfg_text(init="TInit", next_="TNext", invariants=["Report"], switches=switches,
-                       constants={"Docs": "<- NoDocs", "Prop": "\"C02\"", "SafeFlags": "{TRUE}", "MinStages": "1", "MaxStages": "9"})
+                       constants={"Prop": "\"C02\"", "SafeFlags": "{TRUE}", "MinStages": "1", "MaxStages": "9"})
     t0 = time.time()
     r = tlc.run("AyBuildTrace", cfg, wd, env={"TRACE_FILE": path}, workers=8)
     rows = tlc.tuple_prints(r["out"], "TRACE")
@@ -53,7 +54,7 @@ def main():
         for d in hist[tid]:
             print(S.render_doc(d).rstrip()); print("  ---")
         outs = drive.stage_outcomes(hist[tid])
-        model = json.loads(row[2])["model"] if row[2] else None
+        model = json.loads(row[4])["model"] if len(row) > 4 and row[4] else None
         for j, o in enumerate(outs):
             if model and j < len(model):
                 ds = diff(o, model[j], "")
@@ -65,4 +66,5 @@ def main():
     if not os.environ.get("KEEP"):
         tlc.cleanup(wd)
 
-main()
+if __name__ == "__main__":
+    main()
